@@ -9046,7 +9046,13 @@ class SVG(Group):
                 if tag.startswith("{http://www.w3.org/2000/svg"):
                     tag = tag[28:]  # Removing namespace. http://www.w3.org/2000/svg:
                 yield tag, "start", elem
-                yield from semiparse(children, active)
+                if SVG_ATTR_ID in elem.attrib:
+                    # What a use inside this element must not instantiate again, its own ancestor.
+                    yield from semiparse(
+                        children, active + (elem.attrib[SVG_ATTR_ID],)
+                    )
+                else:
+                    yield from semiparse(children, active)
                 if SVG_TAG_USE == tag:
                     url = None
                     semiattr = elem.attrib
